@@ -93,6 +93,12 @@ type c12World struct {
 	// no hosts at all (sequential sub-batches only: the stateless twin is
 	// the reference there, not the version markers).
 	hashless func() bool
+
+	// ssFocus counts the queries still to be steered to the name every
+	// safe-search version with rules rewrites: set when a version without
+	// rules is published, so that the name is asked while nothing rewrites
+	// it and again afterwards.
+	ssFocus int
 }
 
 func (w *c12World) publish(ver int) {
@@ -122,6 +128,12 @@ func (w *c12World) publish(ver int) {
 		} else {
 			text += "@@||ads.multi-shared.com^\n"
 		}
+		if w.hashless != nil && w.l.s.T.Chance(1, 8, "rule-list-without-rules") {
+			// A version without any rule: comments only.  What was asked
+			// meanwhile is "not matched", and must not stay so afterwards.
+			text = fmt.Sprintf("! version %d of l%d has no rules\n", ver, k)
+			w.l.s.Probe("rule-list-without-rules")
+		}
 		l.origin.Set(listPath(k), text)
 	}
 	l.origin.Set("/index.json", `{"filters":[`+strings.Join(fl, ",")+`]}`)
@@ -129,6 +141,14 @@ func (w *c12World) publish(ver int) {
 	var ss strings.Builder
 	for j := 0; j < markers; j++ {
 		fmt.Fprintf(&ss, "|%s^$dnsrewrite=NOERROR;CNAME;safe.v%d.test\n", marker(j, ver, "ss"), ver)
+	}
+	// A name that every version with rules rewrites.
+	ss.WriteString("|always-ss.test^$dnsrewrite=NOERROR;CNAME;safe.always.test\n")
+	if w.hashless != nil && w.l.s.T.Chance(1, 5, "safe-search-without-rules") {
+		w.l.s.Probe("safe-search-without-rules")
+		w.ssFocus = 10
+		ss.Reset()
+		fmt.Fprintf(&ss, "! version %d has no rules\n", ver)
 	}
 	l.origin.Set("/ss-general", ss.String())
 	for _, id := range hashIDs {
@@ -308,7 +328,7 @@ func genHost(t *kernel.Tape, ver int, rs []*requester) (host string) {
 
 		return marker(t.Choose(markers, "marker"), v, kernel.Pick(t, tags, "tag"))
 	case 2:
-		return kernel.Pick(t, []string{"allowed.shared.test", "ads.multi-shared.com", "both.services.test"}, "shared-host")
+		return kernel.Pick(t, []string{"allowed.shared.test", "ads.multi-shared.com", "both.services.test", "always-ss.test"}, "shared-host")
 	case 3:
 		return "always.shared.test"
 	case 4:
@@ -438,6 +458,14 @@ func runC12For(s *kernel.Sim, prop, cfg string) {
 
 		rq := kernel.Pick(t, rs, "requester")
 		host := genHost(t, w.ver, rs)
+		if w.ssFocus > 0 {
+			w.ssFocus--
+			if t.Chance(1, 2, "ask-safe-search-name") {
+				host = "always-ss.test"
+				rq = rs[0]
+				rq.conf.Parental.Enabled, rq.conf.Parental.SafeSearchGeneralEnabled = true, true
+			}
+		}
 		// (The types above 255 are those whose lower octet is that of A, AAAA
 		// or HTTPS.)
 		qt := kernel.Pick(t, []uint16{
